@@ -11,7 +11,7 @@ from ..trace import BudgetExceeded, RaiseRecorder, StepClock
 ID = "C04"
 BUDGET = 10_000_000
 MAXLEN = 8192
-RULE = ("inputs <= 8 KiB, nesting depth <= 64, both providers, entry points Calendar/Component/Event.from_ical with multiple in {False, True}: random bytes; "
+RULE = ("inputs <= 8 KiB, nesting depth <= 64, both providers, entry points Calendar/Component/Event.from_ical with multiple in {False, True}, input as bytes or (when UTF-8) as str: random bytes; "
         "iCalendar token soup; structured mutants (G5) of the fixtures, the fuzz corpus and generated calendars, biased to VTIMEZONE blocks, TZID parameters, "
         "mismatched BEGIN/END, duplicated singletons, truncation; a hostile TZID list (tz-database directory names, '.', '..', 300-character ids, NUL, "
         "Windows names, posix/...); malformed VTIMEZONE definitions; property lines whose typed value is drawn from a grammar of numeric boundaries per RFC 5545 value type "
@@ -225,7 +225,7 @@ def run(ctx):
         n += 1
         prov = "zoneinfo" if n % 2 else "pytz"
         entry = rng.choice(("Calendar", "Calendar", "Component", "Event"))
-        multiple = rng.randrange(2)
+        multiple = rng.randrange(4)          # bit 0: multiple=True, bit 1: input handed over as str
         r = n % 12
         if r == 0:
             data = bytes(rng.randrange(256) for _ in range(rng.randrange(0, 200)))
@@ -331,11 +331,19 @@ def check_case(ctx, case):
         return check_isolate(ctx, case, clock)
     _, _, entry, multiple, data = case
     cls = entry_point(entry)
+    if multiple & 2:
+        # "for every byte string or str": the same input handed over as text (when it is UTF-8)
+        try:
+            data = data.decode("utf-8")
+            ctx.count("str-inputs")
+        except UnicodeDecodeError:
+            pass
+    multiple &= 1
     r = guarded(clock, lambda: cls.from_ical(data, multiple=bool(multiple)))
     ctx.counters["max-steps"] = max(ctx.counters.get("max-steps", 0), clock.count)
     if r[0] == "budget":
         ctx.fail("step-budget-exceeded", observed=f"> {BUDGET} function-entry events (or > {CPU_BUDGET_S} s CPU) in from_ical: {r[1]}", expected=f"<= {BUDGET} for an input of {len(data)} octets",
-                 key=classify_budget(prov, data))
+                 key=classify_budget(prov, data if isinstance(data, bytes) else data.encode('utf-8', 'surrogatepass')))
         return
     if r[0] == "escape":
         ctx.fail("exception-escapes-from_ical", observed=(r[1], r[2]), expected="a result or ValueError")
